@@ -7,6 +7,7 @@ Sub-checks
             result dimension; temperature-range warning iff T outside the documented range; none with warn=False
   sulfuric  sulfuric_acid_density: same clauses, warnings for temperature and mass fraction separately
   dfc       density_from_concentration: unit modes agree, result inverts sulfuric_acid_density, silent by default
+            returns iff the documented fixed-point iteration (re-run here) needs <= maxiter steps (default 10, 3..12, 300)
   schumpe   lg_solubility_ratio = sum((h_gas + h_ion) * c) with c taken physically; dimensionless
   henry     Henry / HenryWithUnits vs H*exp(Tderiv*(1/T - 1/T0)); get_c_at_T_and_P / get_P_at_T_and_c and their round trip
   nernst    nernst_potential vs R*T/(z*F)*ln(c_out/c_in) (ratio taken physically), antisymmetry, volt dimension
@@ -16,6 +17,8 @@ Sub-checks
   grid      the same on dense grids over the whole validity ranges + location/value of the density maximum
   anchors   published values (Tanaka, Korson table II, Holz, Bradley-Pitzer, CRC 20 C acid densities, repo-quoted values)
   edges     float-exact range boundaries: inclusive (no warning), one ulp beyond warns
+  options   optional arguments of the correlations: err_mult of the self-diffusion coefficient, a= of the density,
+            U= of the permittivity - plain == units == the published closed form evaluated here; warnings unchanged
   arrays    one call with a numpy array of 2..8 temperatures (below / inside / above the range, mixtures included):
             every in-range element equals the scalar call; temperature warning iff some element is outside the range
 """
@@ -416,6 +419,12 @@ def dfc_cases(draw):
     if draw(st.integers(0, 2)) == 2:
         case["atol"] = draw(st.sampled_from([1e-1, 1e-6, 1e-2]))
         case["units"]["atol"] = draw(st.sampled_from(["kg/m3", "g/cm3"])) if units else "kg/m3"
+    # maxiter: left at its default (10), a small explicit budget (the iteration needs 3..28 steps over this domain, so
+    # "exactly enough", "one short" and "plenty" all occur), generous (300: every generated case converges), or tight:
+    # "N+k" = the number of steps N the re-implemented iteration needs for this very input, plus k in -1..2
+    kind = draw(st.sampled_from(["default", "small", "generous", "tight"]))
+    case["maxiter"] = (None if kind == "default" else draw(st.integers(3, 12)) if kind == "small" else
+                       300 if kind == "generous" else draw(st.sampled_from(["N+0", "N-1", "N+1", "N+2"])))
     return case
 
 
@@ -508,7 +517,7 @@ def mobility_cases(draw):
 # checks
 # ---------------------------------------------------------------------------------------------------------------------
 DOC_UNITS = {"T": "K", "T0": "K", "Tderiv": "K", "Hcp": "M/atm", "D": "m2/s", "Mr": "kg/mol", "atol": "kg/m3",
-             "co": "M", "ci": "M"}
+             "co": "M", "ci": "M", "par_T": "K", "par_R": "kg/m3", "par_P": "bar"}
 
 
 def _scaled(case):
@@ -635,6 +644,36 @@ def check_sulfuric(case, ctx):
 M_H2SO4 = (1.00794 * 2 + 32.066 + 4 * 15.9994) * 1e-3      # kg/mol, the documented default molar mass
 
 
+DFC_DEFAULT_MAXITER = 10        # documented signature default
+DFC_STEP_LIMIT = 400
+
+
+def _dfc_steps(fwd, c, Mr, T, atol):
+    """The documented fixed-point iteration, re-implemented around the forward correlation used as a black box:
+    rho_0 = 1100 kg/m3, rho_n = f(c*M/rho_(n-1), T), delta_n = rho_n - rho_(n-1), converged at the first n with
+    |delta_n| <= atol.  Returns (N_strict, N_loose, error): the first n with |delta_n| <= atol - tol and with
+    |delta_n| <= atol + tol (None = not within DFC_STEP_LIMIT steps).  tol = 1e-11*rho_n + 1e-9*atol: the iterates of
+    the call under test can differ from these floats by the rounding of one unit conversion of c, M, T and atol (a
+    few 1e-16 relative, i.e. ~1e-12 kg/m3 on rho and on delta; the map is a contraction, so this does not grow) - tol is
+    two decades above that.  N_strict != N_loose means that rounding decides the step at which |delta| <= atol is met:
+    the one-step grey zone."""
+    rho = 1100.0
+    n_loose = None
+    for n in range(1, DFC_STEP_LIMIT + 1):
+        new, _ = call(fwd, c * Mr / rho, T, warn=False)
+        if is_err(new):
+            return None, None, new
+        new = float(new)
+        delta = abs(new - rho)
+        rho = new
+        tol = 1e-11 * abs(rho) + 1e-9 * atol
+        if n_loose is None and delta <= atol + tol:
+            n_loose = n
+        if delta <= atol - tol:
+            return n, n_loose, None
+    return None, n_loose, None
+
+
 def check_dfc(case, ctx):
     from chempy.util import NoConvergence
     f = _fn("density_from_concentration")
@@ -644,10 +683,46 @@ def check_dfc(case, ctx):
     Mr = case.get("Mr", M_H2SO4)
     T = case.get("T", 298.15)
     atol = case.get("atol", 1e-3)
-    sc = _mode_labels(ctx, case, ["atol:%g" % atol, "T:" + ("given" if "T" in case else "default")])
+    n_strict, n_loose, err = _dfc_steps(fwd, c, Mr, T, atol)
+    if err is not None:
+        return raised(ctx, err, "forward")
+    explicit = case.get("maxiter", 300)          # files written before the key existed always passed 300
+    if isinstance(explicit, str):                # "N+k": relative to the steps needed (10 when it never converges)
+        maxiter = max(1, (n_strict or DFC_DEFAULT_MAXITER) + int(explicit[1:]))
+    else:
+        maxiter = DFC_DEFAULT_MAXITER if explicit is None else int(explicit)
+    sc = _mode_labels(ctx, case, ["atol:%g" % atol, "T:" + ("given" if "T" in case else "default"),
+                                  "maxiter:" + ("default" if explicit is None else "tight" if isinstance(explicit, str)
+                                                else "generous" if maxiter >= 100 else "small")])
+    # Loop of the unchanged tree: `while atol < |delta|: step; iter_idx += 1; if iter_idx > maxiter: raise`.  Step n
+    # (n <= maxiter) never raises, and the loop ends after the first step whose |delta| <= atol, so with N = number of
+    # steps the iteration needs:  N <= maxiter -> returns rho_N;  N > maxiter -> NoConvergence (raised after step
+    # maxiter+1, also when that very step converged).  "maxiter: maximum number of iterations (when exceeded a
+    # NoConvergence exception is raised)": a call that needs exactly maxiter steps has not exceeded it.
+    must_return = n_strict is not None and n_strict <= maxiter
+    must_raise = n_loose is None or n_loose > maxiter
+    ctx.label("steps:" + ("none" if n_strict is None else "%s" % ("<=5" if n_strict <= 5 else "6-9" if n_strict <= 9 else
+                                                                   "10-12" if n_strict <= 12 else "13+")),
+              "budget:" + ("grey" if not (must_return or must_raise) else "exceeded" if must_raise else
+                           "exactly_enough" if n_strict == maxiter else "one_spare" if n_strict == maxiter - 1 else "ample"))
+
+    def outcome(res, what):
+        """True: returned legitimately; False: raised NoConvergence legitimately or a failure was reported."""
+        if is_err(res):
+            if not isinstance(res.exc, NoConvergence):
+                raised(ctx, res, what)
+            elif must_return:
+                ctx.fail("no_convergence_although_steps_needed_le_maxiter", what=what, steps_needed=n_strict,
+                         maxiter=maxiter, maxiter_given=explicit is not None)
+            return False
+        if must_raise:
+            ctx.fail("returns_although_steps_needed_gt_maxiter", what=what, steps_needed=n_loose, maxiter=maxiter,
+                     result=repr(res)[:100])
+            return False
+        return True
 
     def kwargs(units):
-        k = {"maxiter": 300}
+        k = {} if explicit is None else {"maxiter": maxiter}
         if units:
             k["units"] = _du()
             if "T" in case:
@@ -667,18 +742,21 @@ def check_dfc(case, ctx):
 
     a, k = kwargs(False)
     base, msgs = call(f, *a, **k)
-    if is_err(base):
-        if isinstance(base.exc, NoConvergence):     # documented outcome of the fixed-point iteration
-            ctx.label("no_convergence")
-            return ctx.skip("NoConvergence")
-        return raised(ctx, base, "plain")
     ctx.require(not msgs, "warning_with_warn_False", what="plain", messages=msgs)
+    if not outcome(base, "plain"):
+        ctx.nontrivial(sc or (n_strict is not None and abs(n_strict - maxiter) <= 1))
+        if case["mode"] == "units":         # the units call is held to the same rule
+            a, k = kwargs(True)
+            res, msgs = call(f, *a, **k)
+            ctx.require(not msgs, "warning_with_warn_False", what="units", messages=msgs)
+            outcome(res, "units")
+        return
     rho, bdim, _ = observe(base)
     ctx.require(same_dim(bdim, DIM_NONE), "plain_result_not_a_number", got=repr(base)[:100])
     wfrac = c * Mr / rho
     wcls = classify(wfrac, 0.1, 0.9)
     ctx.label("w:" + wcls)
-    ctx.nontrivial(sc or wcls.startswith("edge"))
+    ctx.nontrivial(sc or wcls.startswith("edge") or (n_strict is not None and abs(n_strict - maxiter) <= 1))
     # inverse: the returned rho is the last iterate rho_n with |rho_n - rho_(n-1)| <= atol, so the residual
     # |f(c*M/rho_n) - rho_n| = |rho_(n+1) - rho_n| <= L*atol with the contraction constant L < 1 (the iteration
     # converged; measured L <= 0.53 over the generated domain): "within its atol"; 1e-12*rho for float noise
@@ -690,14 +768,9 @@ def check_dfc(case, ctx):
     if case["mode"] == "units":
         a, k = kwargs(True)
         res, msgs = call(f, *a, **k)
-        if is_err(res):
-            if isinstance(res.exc, NoConvergence):
-                # the plain-number call converged for the same physical input (same iteration, maxiter=300), so a
-                # non-converging unit-mode call is a disagreement between modes, not a solver outcome
-                ctx.fail("units_mode_no_convergence_where_plain_converged", plain_si=rho, units=un)
-                return
-            return raised(ctx, res, "units")
         ctx.require(not msgs, "warning_with_warn_False", what="units", messages=msgs)
+        if not outcome(res, "units"):       # same rule as the plain call (they may differ only inside the grey zone)
+            return
         val, dim, _ = observe(res)
         ctx.require(same_dim(dim, DIM_DENSITY), "result_dimension", got=list(dim), expected=list(DIM_DENSITY),
                     result=repr(res)[:120])
@@ -883,13 +956,161 @@ def check_mobility(case, ctx):
                 got_si=val, plain_si=float(plain), result=repr(res)[:120])
 
 
+# -- options ------------------------------------------------------------------------------------------------------------
+# Optional arguments that must not break unit independence.  T0= (density, acid density) is generated by `water`,
+# `sulfuric`, `arrays` and `edges`; here: err_mult= (Holz 2000: D0 and TS shifted by multiples of their reported standard
+# errors), a= (the five Thiesen parameters of the density) and U= (the nine Bradley-Pitzer parameters).  Own
+# transcription of the published parameters; custom sets are the published ones scaled by 1 + k/1000, k in -20..20.
+HOLZ = {"D0": 1.635e-8, "dD0": 2.242e-11, "TS": 215.05, "dTS": 1.2, "gamma": 2.063}
+TANAKA_A = (-3.983035, 301.797, 522528.9, 69.34881, 999.974950)
+# units of the parameters as (symbol, exponent) lists: T = temperature, R = density, P = pressure
+TANAKA_DIMS = ([("T", 1)], [("T", 1)], [("T", 2)], [("T", 1)], [("R", 1)])
+BRADLEY_U = (3.4279e2, -5.0866e-3, 9.4690e-7, -2.0525, 3.1159e3, -1.8289e2, -8.0325e3, 4.2142e6, 2.1417)
+BRADLEY_DIMS = ([], [("T", -1)], [("T", -2)], [], [("T", 1)], [("T", 1)], [("P", 1)], [("T", 1), ("P", 1)],
+                [("T", -1), ("P", 1)])
+OPTION_KINDS = ["err_mult", "density_a", "permittivity_U"]
+OPTION_FN = {"err_mult": "water_self_diffusion_coefficient", "density_a": "water_density",
+             "permittivity_U": "water_permittivity"}
+_scales = st.integers(-20, 20).map(lambda k: 1.0 + k / 1000.0)
+
+
+@st.composite
+def option_cases(draw):
+    kind = draw(st.sampled_from(OPTION_KINDS))
+    spec = WATER[OPTION_FN[kind]]
+    mode = draw(st.sampled_from(["plain", "units", "units"]))
+    units = mode == "units"
+    case = {"kind": kind, "fn": OPTION_FN[kind], "T": draw(in_range_values(spec["lo"], spec["hi"])), "mode": mode,
+            "units": {"T": draw(st.sampled_from(T_UNITS)) if units else "K"},
+            "warn": draw(st.sampled_from([True, True, False]))}
+    if kind == "err_mult":
+        # multiples of the standard errors; ints and floats, tuple or list
+        mult = st.one_of(st.integers(-3, 3), st.integers(-30, 30).map(lambda i: i / 10.0))
+        case["err_mult"] = [draw(mult), draw(mult)]
+        case["container"] = draw(st.sampled_from(["tuple", "list"]))
+        return case
+    n = 5 if kind == "density_a" else 9
+    case["scale"] = [draw(_scales) for _ in range(n)]
+    if kind == "permittivity_U":
+        # B = U7 + U8/T + U9*T is a difference of terms ~8000 bar that falls to 65 bar at 350 degC: these three are scaled
+        # by 1 + k/100000 only (B moves by < 3.3 bar and stays positive)
+        case["scale"][6:] = [1.0 + (x - 1.0) / 100.0 for x in case["scale"][6:]]
+    un = case["units"]
+    un["par_T"] = draw(st.sampled_from(T_UNITS)) if units else "K"
+    if kind == "density_a":
+        un["par_R"] = draw(st.sampled_from(["kg/m3", "g/cm3"])) if units else "kg/m3"
+        if draw(st.integers(0, 3)) == 3:
+            case["T0"] = 273.15
+            un["T0"] = draw(st.sampled_from(T_UNITS)) if units else "K"
+    else:
+        un["par_P"] = draw(st.sampled_from(P_UNITS)) if units else "bar"
+        case["P"] = draw(log_uniform(-0.3, 3.0))
+        un["P"] = draw(st.sampled_from(P_UNITS)) if units else "bar"
+    return case
+
+
+def _param_q(value, dims, un):
+    """A parameter given in K / kg/m3 / bar powers as a Quantity written in the units chosen by the case."""
+    doc = {"T": "K", "R": "kg/m3", "P": "bar"}
+    res = value
+    for sym, e in dims:
+        unit = un["par_" + sym]
+        res = res * float(si_factor(doc[sym]) / si_factor(unit)) ** e
+    for sym, e in dims:
+        res = res * pq_unit(un["par_" + sym]) ** e
+    return res
+
+
+def check_options(case, ctx):
+    kind, fn = case["kind"], case["fn"]
+    spec = WATER[fn]
+    f = _fn(fn)
+    un = case["units"]
+    T = case["T"]
+    cls = classify(T, spec["lo"], spec["hi"])
+    outside = cls in ("out", "edge_out")
+    sc = _mode_labels(ctx, case, (kind, "T:" + cls, "warn:%s" % case["warn"], "Tunit:" + un["T"]))
+    want = {"T"} if outside else set()
+    # the published closed forms with the case's parameters (plain floats, documented units)
+    if kind == "err_mult":
+        e0, e1 = case["err_mult"]
+        ctx.label("err_mult:" + ("zero" if e0 == 0 and e1 == 0 else "D0_only" if e1 == 0 else "TS_only" if e0 == 0 else "both"))
+        ctx.nontrivial(sc or (e0 != 0 and e1 != 0))
+        ref = (HOLZ["D0"] + e0 * HOLZ["dD0"]) * (T / (HOLZ["TS"] + e1 * HOLZ["dTS"]) - 1.0) ** HOLZ["gamma"]
+        em = tuple(case["err_mult"]) if case["container"] == "tuple" else list(case["err_mult"])
+        opts = lambda units: {"err_mult": em}      # noqa: E731  (pure multipliers: the same in both modes)
+    elif kind == "density_a":
+        par = [v * k for v, k in zip(TANAKA_A, case["scale"])]
+        ctx.nontrivial(sc or any(k != 1.0 for k in case["scale"]))
+        t = T - case.get("T0", 273.15)
+        ref = par[4] * (1.0 - ((t + par[0]) ** 2 * (t + par[1])) / (par[2] * (t + par[3])))
+        opts = lambda units: {"a": tuple(_param_q(v, d, un) if units else v for v, d in zip(par, TANAKA_DIMS))}  # noqa: E731
+    else:
+        par = [v * k for v, k in zip(BRADLEY_U, case["scale"])]
+        ctx.nontrivial(sc or any(k != 1.0 for k in case["scale"]))
+        P = case["P"]
+        Bp = par[6] + par[7] / T + par[8] * T
+        Cp = par[3] + par[4] / (par[5] + T)
+        if outside:
+            ref = None                      # not judged; above ~640 K B turns negative and the formula has no value
+        elif Bp + min(P, 1000.0) <= 0:      # only reachable through a hand-written replay file
+            return ctx.skip("custom U outside the domain of the logarithm")
+        else:
+            ref = par[0] * math.exp(par[1] * T + par[2] * T ** 2) + Cp * math.log((Bp + P) / (Bp + 1000.0))
+        opts = lambda units: {"U": tuple(_param_q(v, d, un) if units else v for v, d in zip(par, BRADLEY_DIMS))}  # noqa: E731
+
+    def args(units):
+        a, k = [], dict(opts(units))
+        if units:
+            a.append(to_q(T, "K", un["T"]))
+            if "P" in case:
+                a.append(to_q(case["P"], "bar", un["P"]))
+            if "T0" in case:
+                k["T0"] = to_q(case["T0"], "K", un["T0"])
+            k["units"] = _du()
+        else:
+            a.append(T)
+            if "P" in case:
+                a.append(case["P"])
+            if "T0" in case:
+                k["T0"] = case["T0"]
+        return a, k
+
+    a, k = args(False)
+    base, msgs = call(f, *a, **k)
+    if is_err(base):
+        return raised(ctx, base, "plain", fn=fn, kind=kind)
+    judge_warnings(ctx, msgs, True, want, "plain")
+    bval, bdim, _ = observe(base)
+    ctx.require(same_dim(bdim, DIM_NONE), "plain_result_not_a_number", fn=fn, got=repr(base)[:100])
+    if not outside:
+        # a handful of float operations on the same numbers in a possibly different order: REL_MODE (1e-9) is generous
+        ctx.require(close(bval, ref, REL_MODE), "option_value_differs_from_published_formula", fn=fn, kind=kind, got=bval,
+                    expected=ref)
+    a, k = args(case["mode"] == "units")
+    res, msgs = call(f, *a, warn=case["warn"], **k)
+    if is_err(res):
+        return raised(ctx, res, case["mode"], fn=fn, kind=kind)
+    judge_warnings(ctx, msgs, case["warn"], want, case["mode"])
+    val, dim, fb = observe(res)
+    if fb:
+        ctx.label("observe_fallback")
+    want_dim = spec["dim"] if case["mode"] == "units" else DIM_NONE
+    ctx.require(same_dim(dim, want_dim), "result_dimension", fn=fn, kind=kind, got=list(dim), expected=list(want_dim),
+                result=repr(res)[:120])
+    if not outside:
+        refv = bval * (spec["doc"] if case["mode"] == "units" else 1.0)
+        ctx.require(close(val, refv, REL_MODE), "value_differs_between_modes", fn=fn, kind=kind, got_si=val, plain_si=refv,
+                    result=repr(res)[:120])
+
+
 # -- arrays -------------------------------------------------------------------------------------------------------------
 # Which functions take a numpy array of temperatures (decided by calling the unchanged tree):
 #   water_density, water_self_diffusion_coefficient, water_permittivity (P absent, scalar or an array of the same
 #   length), Henry / HenryWithUnits (__call__, get_c_at_T_and_P, get_P_at_T_and_c): plain numbers and units mode
 #   (K or mK; the result of the density / diffusivity keeps an unreduced mK**n/K**n, which `observe` reduces).
-#   water_viscosity: plain numbers; with units=... it raises TypeError for an array (float(exponent.simplified)) -
-#   generated and recorded as an open known finding, its warning is still judged.
+#   water_viscosity: plain numbers and units mode (units mode since /repo 91eb8ac; before, float(exponent.simplified)
+#   raised TypeError for an array - found by this sub-check).
 # Not generated: sulfuric_acid_density (float(t / K) and a (1, 5) power table: scalar T only, in both modes; an array
 # of mass fractions does not work either), density_from_concentration (scalar fixed-point iteration),
 # lg_solubility_ratio (no temperature), nernst_potential / electrical_mobility_from_D (no validity range; closed forms
@@ -1318,10 +1539,11 @@ SUBCHECKS = [
     SubCheck("sulfuric", check_sulfuric, strategy=sulfuric_cases(), quick=400, thorough=20000, tolerances=TOL,
              rule="w over 0.001..1, T over 263..333 K (0.15 K strips around 273/323 K where docstring and warning text "
                   "disagree are not generated)"),
-    SubCheck("dfc", check_dfc, strategy=dfc_cases(), quick=150, thorough=6000,
-             tolerances={"inverse residual": "atol + 1e-12*rho", "between modes": "1.5*atol + 1e-9*rho"},
-             rule="c 100..10000 mol/m3 in mol/m3|M|mM, T K|mK or default, molar mass kg/mol|g/mol, atol; maxiter=300, "
-                  "NoConvergence = inconclusive"),
+    SubCheck("dfc", check_dfc, strategy=dfc_cases(), quick=400, thorough=12000,
+             tolerances={"inverse residual": "atol + 1e-12*rho", "between modes": "1.5*atol + 1e-9*rho",
+                         "steps needed, grey zone on |delta| vs atol": "1e-11*rho + 1e-9*atol"},
+             rule="c 100..10000 mol/m3 in mol/m3|M|mM, T K|mK or default, molar mass kg/mol|g/mol, atol; maxiter default "
+                  "(10) | 3..12 | 300; returns iff the re-implemented fixed-point iteration needs <= maxiter steps"),
     SubCheck("schumpe", check_schumpe, strategy=schumpe_cases(), quick=300, thorough=14000,
              tolerances={"value": "1e-9 * sum |terms|"}, rule="1-4 distinct ions, 1e-3..5 M in M|mM|uM|mol/m3, 15 gases"),
     SubCheck("henry", check_henry, strategy=henry_cases(), quick=500, thorough=25000, tolerances=TOL,
@@ -1337,6 +1559,9 @@ SUBCHECKS = [
                   "0.1 K / 0.01 K grid"),
     SubCheck("anchors", check_anchor, enumerate=enum_anchors, rule="published table values, plain and units=default_units"),
     SubCheck("edges", check_edge, enumerate=enum_edges, rule="float-exact boundaries, inclusive; one ulp beyond warns"),
+    SubCheck("options", check_options, strategy=option_cases(), quick=500, thorough=25000, tolerances=TOL,
+             rule="err_mult pairs in -3..3 (int / float, tuple / list); a= and U= = published parameters x (1 + k/1000), given "
+                  "as plain floats or as quantities in K|mK, kg/m3|g/cm3, bar|Pa|atm; T as in `water`; plain / units"),
     SubCheck("arrays", check_arrays, strategy=array_cases(), quick=800, thorough=40000,
              tolerances={"array element vs scalar call (relative)": REL_ARRAY, "dimension exponents": 1e-9},
              rule="numpy array of 2-8 temperatures per call, each drawn below / inside / above the range (Henry: 250-400 "
